@@ -39,7 +39,7 @@ func checkC01(r *run, m *PacketModel) (CaseInfo, error) {
 	if err != nil {
 		return ci, failf("reference parser rejects Marshal output %s: %v", hx(buf), err)
 	}
-	if err := compareWire(m, w); err != nil {
+	if err := compareWire(m, w, true); err != nil {
 		return ci, failf("Marshal output %s read by the reference parser: %v", hx(buf), err)
 	}
 	if m.PaddingSize > 0 && buf[len(buf)-1] != m.PaddingSize {
@@ -91,7 +91,7 @@ func checkC01(r *run, m *PacketModel) (CaseInfo, error) {
 }
 
 // compareWire compares what the strict reference parser read with the model.
-func compareWire(m *PacketModel, w *rtpwire.Packet) error {
+func compareWire(m *PacketModel, w *rtpwire.Packet, canonical bool) error {
 	if w.Version != m.Version || w.Marker != m.Marker || w.PT != m.PT || w.Seq != m.Seq || w.TS != m.TS ||
 		w.SSRC != m.SSRC || w.Padding != (m.PaddingSize > 0) || w.PadLen != int(m.PaddingSize) {
 		return failf("fixed fields differ: V=%d M=%v PT=%d seq=%d ts=%d ssrc=%d P=%v pad=%d",
@@ -120,7 +120,7 @@ func compareWire(m *PacketModel, w *rtpwire.Packet) error {
 				return failf("element %d is (%d,%s), want (%d,%s)", i, w.Elems[i].ID, hx(w.Elems[i].Val), e.ID, hx(e.Val))
 			}
 		}
-		if w.HeaderLen != m.headerSize() {
+		if canonical && w.HeaderLen != m.headerSize() {
 			return failf("header length %d, want %d", w.HeaderLen, m.headerSize())
 		}
 	}
